@@ -71,6 +71,10 @@ pub struct Lua {
     pub env_cell: Rc<UpCell>,
     /// flush `out` to stdout when it grows (used by the binary)
     pub stream_stdout: bool,
+    /// call-site name of the native function being called (for 'bad argument' messages)
+    pub call_name: Option<LStr>,
+    pub call_is_method: bool,
+    for_iter_name: LStr,
 }
 
 /// native stack needed in the worst case by one Lua-level call (deeply
@@ -107,6 +111,9 @@ impl Lua {
             rng: 0x2545_F491_4F6C_DD1D,
             env_cell,
             stream_stdout: false,
+            call_name: None,
+            call_is_method: false,
+            for_iter_name: Rc::from(&b"for iterator"[..]),
         };
         crate::stdlib::open_libs(&mut lua);
         lua
@@ -242,6 +249,7 @@ impl Lua {
     /// Convenience for natives / metamethods: call with explicit arguments,
     /// return the first result.
     pub fn call1(&mut self, f: Value, args: &[Value]) -> R<Value> {
+        self.call_name = None;
         let abase = self.stack.len();
         self.stack.extend_from_slice(args);
         let n = self.call_value(f, abase)?;
@@ -541,6 +549,17 @@ impl Lua {
         };
         self.push_explist(fr, &c.args)?;
         self.set_line(c.line);
+        if let Value::Native(_) | Value::NativeC(_) = &f {
+            self.call_is_method = c.method.is_some();
+            self.call_name = match (c.method, &c.func) {
+                (Some(m), _) => Some(fr.inst.const_str(m).clone()),
+                (None, Expr::Local(_, n)) | (None, Expr::Global(n)) | (None, Expr::Field(_, n, _)) => {
+                    Some(fr.inst.const_str(*n).clone())
+                }
+                (None, Expr::Upval(i)) => Some(fr.inst.const_str(fr.proto.upvals[*i as usize].name).clone()),
+                _ => None,
+            };
+        }
         if !f.is_function() && !self.metamethod(&f, b"__call").is_function() {
             let info = match c.method {
                 Some(m) => format!(" (method '{}')", String::from_utf8_lossy(fr.inst.const_str(m))),
@@ -827,7 +846,10 @@ impl Lua {
             if !f.is_function() && !self.metamethod(&f, b"__call").is_function() {
                 return Err(self.rt_error(format!("attempt to call a {} value", f.type_name())));
             }
-            // fast path for `next` over a plain table
+            if let Value::Native(_) = &f {
+                self.call_is_method = false;
+                self.call_name = Some(self.for_iter_name.clone());
+            }
             self.call_value(f, abase)?;
             self.stack.resize(abase + nvars.max(1), Value::Nil);
             if self.stack[abase].is_nil() {
@@ -1022,7 +1044,7 @@ impl Drop for Lua {
         let cells: Vec<Rc<UpCell>> = self.cells.drain(..).filter_map(|w| w.upgrade()).collect();
         let mut garbage: Vec<Value> = Vec::new();
         let mut metas: Vec<TableRef> = Vec::new();
-        let mut sweep = |t: &TableRef, garbage: &mut Vec<Value>, metas: &mut Vec<TableRef>| {
+        let sweep = |t: &TableRef, garbage: &mut Vec<Value>, metas: &mut Vec<TableRef>| {
             if let Ok(mut tb) = t.try_borrow_mut() {
                 let (a, e, m) = tb.clear_all();
                 garbage.extend(a);
